@@ -1,13 +1,13 @@
 SPECIFICATION Spec
 CONSTANTS
   GPUs = {1, 2}
-  Unit = 2
+  Unit = 1
   PortCap = 1
-  MCFrames <- Frames2
-  FrameChunks = 2
-  MaxMig = 2
-  Serial = TRUE
-  Requesters = {1, 2}
-  AcceptGuard = "handling"
+  MCFrames <- Frames3
+  FrameChunks = 1
+  MaxMig = 3
+  Serial = FALSE
+  Requesters = {1}
+  AcceptGuard = "slot"
 INVARIANTS TypeOK ContentsCopied NothingElseChanged CompleteOnce OneAtATime RoutedBack InRange AllServed
 CHECK_DEADLOCK FALSE
